@@ -217,7 +217,7 @@ def handle (ws : List String) : String :=
     match tk with
     | some tk =>
       let out := fun (o : Option String) => match o with | none => "throw:TypeError" | some s => strOut s
-      reply (out (errorProtoToString tk)) (out (Spec.errorProtoToString tk)) (if tk = .prim ∨ tk = .undef then "tostring_non_object_this" else "-")
+      reply (out (errorProtoToString tk)) (out (Spec.errorProtoToString tk)) (if tk = .undef then "tostring_non_object_this" else "-")
     | none => "bad-op"
   | ["emsg", "engine", k, t] =>
     match str? t with
@@ -227,13 +227,8 @@ def handle (ws : List String) : String :=
         | "ident" => some (.unresolvable t) | "nonfn" => some (.notFunction t) | _ => none
       match em with
       | some em =>
-        let fmtOK := match em with
-          | .evalToken t => sprintf0OK t.toList
-          | .jsonChar c => sprintf0OK (c ++ "'").toList
-          | _ => true
-        if !fmtOK then "bad-op" else
         let out := fun (p : String × String) => p.1 ++ "|" ++ strOut p.2
-        reply (out (engineMsg em)) (out (Spec.engineMsg em)) (join (Spec.engineMsgDevs em))
+        reply (out (engineMsg em)) (out (Spec.engineMsg em)) "-"
       | none => "bad-op"
     | none => "bad-op"
   | ["emsg", r, ctor, m] =>
@@ -245,7 +240,7 @@ def handle (ws : List String) : String :=
         "|m=" ++ (if o.msgIsString then strOut o.msg else "-") ++ "|om=" ++ (if o.ownMessage then "1" else "0") ++
         "|on=" ++ (if o.ownName then "1" else "0") ++ "|s=" ++ strOut o.str ++ "|h=" ++ strOut o.stackHead ++
         "|nt=" ++ (if o.nativeTop then "1" else "0")
-      reply (out (errObs route ctor arg)) (out (Spec.errObs route ctor arg)) (join (Spec.errObsDevs route ctor arg))
+      reply (out (errObs route ctor arg)) (out (Spec.errObs route ctor arg)) "-"
     | _, _ => "bad-op"
   | ["climit", tl, sl, n, d] =>
     -- trace limit tl (`d` = the default of New()), stack-depth limit sl, n × Copy(), error below d nested calls
